@@ -244,6 +244,114 @@ pub fn generate(kind: &str, thorough: bool, seed: u64, corpus: &str, out: &mut O
                 for t in random_docs(&si, &mut rng, 50, 5) { crate::valcases::rules_case(&si, &t, &rules, &tmp, out); }
             }
         }
+        "c06" => {
+            let tmp = tmpdir();
+            let rules = ["UniqueFragmentNames", "KnownFragmentNames", "KnownTypeNames", "FragmentsOnCompositeTypes",
+                         "NoUnusedFragments", "NoFragmentsCycle", "PossibleFragmentSpreads"];
+            let sdl = format!("{}\nscalar Custom\nenum E {{ X }}\ninput In {{ x: Int }}\ninterface I {{ a: Int  t: T }}\ninterface J implements I {{ a: Int  t: T }}\ntype T implements I & J {{ a: Int  t: T  i: I  j: J  u: U }}\ntype V {{ a: Int }}\ntype W implements I {{ a: Int  t: T }}\nunion U = T | V\nunion U2 = V | W\ntype Query {{ a: Int  t: T  i: I  j: J  u: U  u2: U2  v: V  w: W }}\n", schemas::PRELUDE);
+            let si = gen::SchemaInfo::new("frags", &sdl);
+            out.schema(&si);
+            // (A) fragment graphs: edge j -> k of fragment j is a spread of Fk nested `depth` levels deep
+            fn nest(inner: &str, depth: usize, kind: usize) -> String {
+                let mut t = inner.to_string();
+                for l in 0..depth {
+                    t = if (l + kind) % 2 == 0 { format!("t {{ {} }}", t) } else { format!("... on T {{ {} }}", t) };
+                }
+                t
+            }
+            let graph_doc = |n: usize, adj: u64, roots: u64, variant: usize| -> String {
+                let mut t = String::new();
+                let mut rs = String::new();
+                for k in 0..n { if roots >> k & 1 == 1 { rs.push_str(&format!(" {}", nest(&format!("...F{}", k), (k + variant) % 3, variant))); } }
+                t.push_str(&format!("{{ t {{ a{} }} }}", rs));
+                for j in 0..n {
+                    let mut body = String::from("a");
+                    for k in 0..n {
+                        if adj >> (j * n + k) & 1 == 1 { body.push_str(&format!(" {}", nest(&format!("...F{}", k), (j + 2 * k + variant) % 5, variant + k))); }
+                    }
+                    t.push_str(&format!(" fragment F{} on T {{ {} }}", j, body));
+                }
+                t
+            };
+            let mut variant = 0usize;
+            for n in 1..=3usize {
+                for adj in 0..(1u64 << (n * n)) {
+                    for roots in 0..(1u64 << n) {
+                        if n == 3 && !thorough && (adj + roots) % 3 != 0 { continue; }
+                        variant += 1;
+                        crate::valcases::rules_case(&si, &graph_doc(n, adj, roots, variant), &rules, &tmp, out);
+                    }
+                }
+            }
+            for _ in 0..(1200 * scale) {
+                let n = 4 + rng.below(3) as usize;
+                let mut adj = 0u64;
+                let dens = 1 + rng.below(4);
+                for b in 0..(n * n) { if rng.below(8) < dens { adj |= 1 << b; } }
+                let roots = rng.next() & ((1 << n) - 1);
+                variant += 1;
+                crate::valcases::rules_case(&si, &graph_doc(n, adj, roots, variant), &rules, &tmp, out);
+            }
+            // spreads of undefined fragments, at every depth, in operations and in (used / unused) fragments
+            for depth in 0..5usize {
+                for kind in 0..2usize {
+                    let sp = nest("...Nope", depth, kind);
+                    for t in [format!("{{ t {{ a {} }} }}", sp), format!("{{ t {{ ...F0 }} }} fragment F0 on T {{ a {} }}", sp),
+                              format!("{{ t {{ a }} }} fragment F0 on T {{ a {} }}", sp), format!("{{ t {{ ...F0 {} }} }} fragment F0 on T {{ {} ...F0 }}", sp, sp),
+                              format!("query A {{ t {{ {} }} }} query B {{ t {{ ...F0 }} }} fragment F0 on T {{ a }} fragment Nope2 on T {{ {} }}", sp, sp)] {
+                        crate::valcases::rules_case(&si, &t, &rules, &tmp, out);
+                    }
+                }
+            }
+            // long chains and rings (depth of the marking passes)
+            for n in [8usize, 20, 60] {
+                for ring in [false, true] {
+                    let mut t = String::from("{ t { ...F0 } }");
+                    for j in 0..n {
+                        let next = if j + 1 < n { format!("...F{}", j + 1) } else if ring { "...F0".to_string() } else { "a".to_string() };
+                        t.push_str(&format!(" fragment F{} on T {{ t {{ {} }} }}", j, next));
+                    }
+                    crate::valcases::rules_case(&si, &t, &rules, &tmp, out);
+                }
+            }
+            // (B) type conditions of every kind at every kind of enclosing type
+            let parents = ["", "t", "i", "j", "u", "u2", "v", "w", "nope"];
+            let conds = ["Query", "T", "V", "W", "I", "J", "U", "U2", "E", "In", "Custom", "Int", "Unknown", "__Type", "__Schema", "__Foo", "__typename"];
+            for p in parents.iter() {
+                let wrap = |inner: &str| if p.is_empty() { format!("{{ {} }}", inner) } else { format!("{{ {} {{ {} }} }}", p, inner) };
+                crate::valcases::rules_case(&si, &wrap("... { __typename }"), &rules, &tmp, out);
+                crate::valcases::rules_case(&si, &wrap("... @skip(if: true) { ... on T { __typename } }"), &rules, &tmp, out);
+                for c in conds.iter() {
+                    crate::valcases::rules_case(&si, &wrap(&format!("... on {} {{ __typename }}", c)), &rules, &tmp, out);
+                    crate::valcases::rules_case(&si, &format!("{} fragment F on {} {{ __typename }}", wrap("...F"), c), &rules, &tmp, out);
+                    for c2 in ["T", "I", "U", "V", "Unknown"] {
+                        crate::valcases::rules_case(&si, &wrap(&format!("... on {} {{ ... on {} {{ __typename }} }}", c, c2)), &rules, &tmp, out);
+                        crate::valcases::rules_case(&si, &format!("{} fragment F on {} {{ ...G }} fragment G on {} {{ __typename }}", wrap("...F"), c, c2), &rules, &tmp, out);
+                    }
+                }
+            }
+            for c in conds.iter() {
+                for w in ["{}", "{}!", "[{}]", "[{}!]!", "[[{}]]"] {
+                    crate::valcases::rules_case(&si, &format!("query ($v: {}) {{ a }}", w.replace("{}", c)), &rules, &tmp, out);
+                }
+            }
+            // (C) duplicate fragment names
+            let names = ["A", "B"];
+            for len in 1..=3usize {
+                for code in 0..(1usize << len) {
+                    for roots in 0..4usize {
+                        let mut t = format!("{{ t {{ a {} {} }} }}", if roots & 1 == 1 { "...A" } else { "" }, if roots & 2 == 2 { "...B" } else { "" });
+                        for k in 0..len { t.push_str(&format!(" fragment {} on T {{ a{} }}", names[code >> k & 1], if k == 0 { " ...B" } else { "" })); }
+                        crate::valcases::rules_case(&si, &t, &rules, &tmp, out);
+                    }
+                }
+            }
+            for si in pool() {
+                out.schema(&si);
+                for t in corpus_docs(corpus, &si.name) { crate::valcases::rules_case(&si, &t, &rules, &tmp, out); }
+                for t in random_docs(&si, &mut rng, 100 * scale, 5) { crate::valcases::rules_case(&si, &t, &rules, &tmp, out); }
+            }
+        }
         "c08" => {
             let tmp = tmpdir();
             let rules = ["ValuesOfCorrectType"];
